@@ -126,6 +126,9 @@ class Map:
 
     def run_history(self, cfg, calls):
         em = event.EventMap()
+        # a bystander map that receives the same source objects in another order: a source may belong to several
+        # maps, and what one map says about it must not depend on the others
+        other = event.EventMap()
         objs = {}
 
         def obj(s):
@@ -136,13 +139,19 @@ class Map:
             return objs[s]
         ids = {}
         steps = []
-        for c in calls:
+        for n, c in enumerate(calls):
             ret, val = "ok", 0
             try:
                 if c["call"] == "add":
                     o = obj(c["src"])
                     ids[id(o)] = c["src"]
+                    if c["src"] and n % 2 == 0:
+                        other.add(obj(cfg["s"] + 1 + n))      # shifts the numbering of the bystander
+                        other.add(o)
                     em.add(o)
+                    if c["src"] and n % 2 == 1:
+                        other.add(obj(cfg["s"] + 1 + n))
+                        other.add(o)
                 elif c["call"] == "index":
                     v = em.index(obj(c["src"]))
                     ret, val = "idx", v
